@@ -19,6 +19,9 @@ Completed == Step /\ obs.e \in {"ServerResolved", "StopResolved", "ChildExited"}
 \* ServerStop.C06_GracefulWaits: a graceful stop (stop(true) / SIGTERM) completes only after every connection that
 \* was in progress when it was issued has finished, or shutdown_timeout has elapsed
 T_C06_GracefulWaits == (Completed /\ obs.graceful) => (obs.liveAtStopStillLive = <<>> \/ obs.sinceStop >= obs.timeoutMs)
+\* ServerStop.C06_GracefulLetsFinish: during a graceful stop no connection in progress is torn down (its service future
+\* dropped unfinished) before shutdown_timeout has elapsed
+T_C06_GracefulLetsFinish == Step => obs.killedEarly = <<>>
 \* ServerStop.NEG_ForcedNeverCompletesWithLive (reachability): a forced stop (stop(false) / SIGINT / SIGQUIT) completes
 \* although connections are held forever, and promptly
 T_C06_ForcedDoesNotWait ==
